@@ -260,6 +260,28 @@ example :
       loadBinary { w with files := ("d/y.h", 201) :: w.files } "d/a.c" = .stale "behind-inherited" := by
   decide
 
+/-- what `inc_open` takes for an include directive: the first candidate that exists (the same definition as in
+    Witness.lean, where the full statement is refuted) -/
+def resolveIncludeP (w : World) (cands : List String) : Option String :=
+  cands.find? (fun c => (w.mtime c).isSome)
+
+/-- **include_resolution_partial**: when a binary is used, an include directive still resolves to the file the binary
+    recorded for it PROVIDED no candidate earlier in the search order exists (the side condition that the open finding
+    C17-include-shadowed is about: `load_binary` cannot see a new file in front of a recorded one) -/
+theorem include_resolution_partial (w : World) (name : String) (pre post : List String) (r : String)
+    (h : loadBinary w name = .use) (hr : ∀ b, w.bins.lookup (binPath w name) = some b → r ∈ b.includes)
+    (hpre : ∀ c, c ∈ pre → w.mtime c = none) : resolveIncludeP w (pre ++ r :: post) = some r := by
+  obtain ⟨mt, b, _, hb, _, _, _, _, _, _, hi, _, _⟩ := never_stale w name h
+  obtain ⟨t, ht, _⟩ := hi r (hr b hb)
+  unfold resolveIncludeP
+  rw [List.find?_append]
+  have : pre.find? (fun c => (w.mtime c).isSome) = none := by
+    rw [List.find?_eq_none]
+    intro c hc
+    simp [hpre c hc]
+  rw [this]
+  simp [ht]
+
 /-! ## (a') what may be saved: no binary for a program laid out for a parent that is no longer current -/
 
 /-- the program blocks reachable from a linked block through `prog->inherit[]` -/
